@@ -36,6 +36,7 @@ type coro struct {
 	wake   *Term  // virtual wake-up instant (64-bit term)
 	vc     []int  // vector clock
 	panicV any
+	joinable bool // started by the harness (verifGo); verifWaitAll waits for these only
 }
 
 type accessRec struct {
@@ -65,6 +66,9 @@ type scheduler struct {
 	maxAdv   uint64 // largest single advance of the clock at a yield point
 	deadlock bool
 	killed   bool
+	// voluntaryChoice: also branch on who runs next when the current coroutine gives up the
+	// processor itself (off by default: the number of schedules explodes)
+	voluntaryChoice bool
 }
 
 // Sched is non-nil while a concurrent harness is running.
@@ -171,7 +175,20 @@ func (s *scheduler) pick(mustSwitch bool) *coro {
 		return nil
 	}
 	chosen := cands[len(cands)-1]
-	if mustSwitch || s.preemptions < s.maxPreempt {
+	if mustSwitch && !s.voluntaryChoice {
+		// voluntary switch (block, sleep, exit): deterministic hand-over to the next coroutine in
+		// creation order after cur; only pre-emptive switches are explored as choices
+		chosen = cands[0]
+		for _, c := range cands {
+			if c.id > cur.id {
+				chosen = c
+				break
+			}
+		}
+		if curRunnable {
+			chosen = cur
+		}
+	} else if mustSwitch || s.preemptions < s.maxPreempt {
 		for _, c := range cands[:len(cands)-1] {
 			s.nchoice++
 			v := X.NewVar(fmt.Sprintf("sched%d", s.nchoice), 0, 1, nil)
@@ -325,15 +342,16 @@ func (s *scheduler) spawn(i *interpreter, fn value, args []value) *coro {
 	return c
 }
 
-// waitAll blocks the main coroutine until every other coroutine has finished.
-func (s *scheduler) waitAll() {
+// waitAll blocks the main coroutine until every other coroutine (onlyJoinable: every
+// coroutine started by the harness) has finished.
+func (s *scheduler) waitAll(onlyJoinable bool) {
 	for {
 		if s.killed {
 			s.propagate()
 		}
 		alive := false
 		for _, c := range s.coros[1:] {
-			if c.state != coDone {
+			if c.state != coDone && (c.joinable || !onlyJoinable) {
 				alive = true
 			}
 		}
@@ -353,7 +371,9 @@ func (s *scheduler) waitAll() {
 		}
 	}
 	for _, c := range s.coros[1:] {
-		s.cur.vc = vcJoin(s.cur.vc, c.vc)
+		if c.state == coDone {
+			s.cur.vc = vcJoin(s.cur.vc, c.vc)
+		}
 	}
 }
 
